@@ -23,7 +23,7 @@ def tweak(world, rng):
     for e in ([] if has_dup else ents):
         if e["loc"] in nodes or rng.random() < 0.4:
             continue
-        kind = rng.choice(["file", "dir", "link-file", "link-dir", "link-dangling"])
+        kind = rng.choice(["file", "dir", "link-file", "link-dir", "link-dangling", "fifo"])
         parent = os.path.dirname(e["loc"])
         parts = parent.split(b"/")
         okp = True
@@ -37,6 +37,9 @@ def tweak(world, rng):
             continue
         if kind == "file":
             nodes[e["loc"]] = {"p": e["loc"], "k": "f", "data": b"existing", "mode": 0o644, "mtime": 1000000301}
+        elif kind == "fifo":
+            # a special file is a non-directory like any other (the model and the snapshots see an empty regular file)
+            nodes[e["loc"]] = {"p": e["loc"], "k": "f", "data": b"", "mode": 0o644, "mtime": 1000000301, "special": "fifo"}
         elif kind == "dir":
             nodes[e["loc"]] = {"p": e["loc"], "k": "d", "mode": 0o755, "mtime": 1000000302}
         elif kind == "link-file":
@@ -79,7 +82,7 @@ def tweak(world, rng):
     if world["opts"].get("overwrite"):
         # --overwrite: what comes back may be a directory, what is in the way a dangling link, a link or a file
         for e in ents:
-            if e.get("dest") in ("link-dangling", "link-file", "file") and rng.random() < 0.5:
+            if e.get("dest") in ("link-dangling", "link-file", "file", "fifo") and rng.random() < 0.5:
                 pay = e["tdir"] + b"/files/" + e["name"]
                 for q in [q for q in nodes if q == pay or q.startswith(pay + b"/")]:
                     del nodes[q]
